@@ -72,6 +72,10 @@ Definition expect_break (bs : bytes) : result bytes :=
 Definition close_len (len : harg) (bs : bytes) : result bytes :=
   match len with Arg _ => Ok bs | Indef => expect_break bs end.
 
+(* check_len (serialization/utils.rs:85-101): a definite length must be the expected one *)
+Definition check_len (len : harg) (k : N) : result unit :=
+  match len with Arg n => if n =? k then Ok tt else Err | Indef => Ok tt end.
+
 (* skip_tag(raw, 258): `if let Ok(t) = raw.tag()`: a tag other than 258 is an error, anything that is not a
    readable tag is "no tag" and consumes nothing *)
 Definition skip_set_tag (bs : bytes) : result (bool * bytes) :=
